@@ -51,6 +51,10 @@ def build_traj(case, timed):
     P = np.asarray(case["P"], dtype=float).reshape(n, 3)
     Q = np.array([gen.rot_quat(r) for r in (case["rots"] * n)[:n]])
     T = gen.stamps({"t0": case["t0"], "dts": (case["dts"] * n)[: n - 1]}) if timed else None
+    if case.get("qscale") and case["mode"] == "pq":
+        # quaternions that are unit only to the precision of a text file (valid by evo's own check()): stored as they are
+        f = np.asarray((list(case["qscale"]) * n)[:n], dtype=float)
+        Q = Q * (1.0 + f)[:, None]
     if case["mode"] == "pq":
         kw = dict(positions_xyz=P.copy(), orientations_quat_wxyz=Q.copy())
     else:
@@ -370,6 +374,7 @@ _traj_fields = {
     "t0": st.sampled_from([0.0, 1.5e9 + 0.123456789, 1403636579.763555527, 0.1, 2147483000.25]),
     "dts": st.lists(st.one_of(gen.fl(1e-9, 100.0), st.sampled_from([1e-9, 0.005, 0.1])), min_size=1, max_size=8),
     "mode": st.sampled_from(["pq", "se3"]),
+    "qscale": st.one_of(st.none(), st.none(), st.lists(st.sampled_from([0.0, 3e-7, -3e-7, 8e-6, -2e-8]), min_size=1, max_size=4)),
     "pre": st.lists(st.sampled_from(["positions_xyz", "orientations_quat_wxyz", "poses_se3", "distances"]), max_size=2, unique=True),
 }
 st_traj = st.fixed_dictionaries(dict(_traj_fields, via=st.sampled_from(["str", "pathlib", "handle"]), timed=st.booleans()))
